@@ -1,8 +1,24 @@
 import SLModel.Drv.Util
+import SLModel.Core.Paths
 open Lean
 namespace SL.Drv.C28
+open SL.Drv SL.Paths
 
-/-- stub: no model operations for C28 yet -/
-def handle (_req : Json) : Except String Json := .error "C28: not implemented"
+def pathOf (s : String) : Path := (s.splitOn "/").filter (· ≠ "")
+def pathStr (p : Path) : String := "/" ++ "/".intercalate p
+
+/-- `{"op":"resolve","root":"/x/copy","stored":["/x/orig/seg.docs",…],"legacy":false}` →
+the paths the code is expected to touch, and whether each lies under the root -/
+def handle (req : Json) : Except String Json := do
+  let op ← getStr req "op"
+  match op with
+  | "resolve" =>
+    let root := pathOf (← getStr req "root")
+    let stored ← (← getArr req "stored").toList.mapM (fun j => j.getStr?)
+    let res := if getBoolD req "legacy" false then resolveLegacy else resolve
+    let ts := touched res root (stored.map pathOf)
+    return Json.mkObj [("paths", Json.arr (ts.map (fun p => (pathStr p : Json))).toArray),
+      ("under_root", Json.arr (ts.map (fun p => (decide (root <+: p) : Json))).toArray)]
+  | _ => throw s!"C28: unknown op {op}"
 
 end SL.Drv.C28
